@@ -191,6 +191,20 @@ func RunCheck(o CheckOpts) int {
 			r.Ms += ob.Res.Ms
 		}
 		solverMs += r.Ms
+		if w.Kind == "cover" && strings.HasPrefix(n, "") && w.Res.Status != "unsat" && strings.Contains(n, "/cover#return") {
+			// a single unreachable return is not vacuity as long as some return of the function is reachable
+			anyOK := false
+			for _, n2 := range names {
+				if strings.HasPrefix(n2, n[:strings.Index(n, "/cover#")]+"/cover#return") && groups[n2].worst.Res.Status == "unsat" {
+					anyOK = true
+				}
+			}
+			if anyOK {
+				w.Res.Status = "unsat"
+				w.Res.Solver = "cover:other-return-reachable"
+				r.Status = "unsat"
+			}
+		}
 		if w.Res.Status == "unsat" {
 			discharged++
 		} else if kf, ok := known[n]; ok {
